@@ -60,10 +60,10 @@ func coqSnap(s Snap) string {
 	txs := make([]string, len(s.Txs))
 	for i, t := range s.Txs {
 		x := h32(t)
-		txs[i] = vh.BytesAsN(x[:])
+		txs[i] = num32(x[:])
 	}
 	hh := h32(s.Hash)
-	return vh.App("mk_snap", vh.BytesAsN(hh[:]), vh.NU(s.Ts), vh.NU(uint64(s.Version)), vh.NU(s.Round), vh.List(txs, "N"))
+	return vh.App("mk_snap", num32(hh[:]), vh.NU(s.Ts), vh.NU(uint64(s.Version)), vh.NU(s.Round), vh.List(txs, "N"))
 }
 
 // the property, on the implementation's slice
@@ -177,7 +177,7 @@ func run(c *vh.Ctx, cs Case) {
 	}
 	order := make([]string, len(round.Snapshots))
 	for i, s := range round.Snapshots {
-		order[i] = vh.BytesAsN(s.Hash[:])
+		order[i] = num32(s.Hash[:])
 	}
 	var fr *kernel.FinalRound
 	fpan, _ := vh.Catch(func() { fr = round.VerifC19AsFinal() })
@@ -203,7 +203,7 @@ func run(c *vh.Ctx, cs Case) {
 	}
 	key := fmt.Sprintf("%v", cs)
 	c.Case(kind, key, accepted >= 2, cs,
-		vh.App("CSeq", vh.BytesAsN(node[:]), vh.NU(cs.Number), vh.List(coqCands, "(snap * bool)"),
+		vh.App("CSeq", num32(node[:]), vh.NU(cs.Number), vh.List(coqCands, "(snap * bool)"),
 			vh.List(classes, "N"), vh.List(order, "N"), final))
 }
 
@@ -255,7 +255,7 @@ func genSeq(c *vh.Ctx) Case {
 		switch {
 		case r.Chance(1, 80):
 			sn.Hash = small(0)
-		case r.Chance(1, 3):
+		case r.Chance(1, 6):
 			sn.Hash = hex.EncodeToString(r.Bytes(32))
 		default:
 			sn.Hash = small(uint64(1 + r.Intn(hashPool)))
@@ -348,7 +348,7 @@ func main() {
 	for _, cs := range corpus() {
 		run(c, cs)
 	}
-	n := c.Scale(4000, 120000)
+	n := c.Scale(3000, 100000)
 	for i := 0; i < n; i++ {
 		run(c, genSeq(c))
 	}
